@@ -9,7 +9,7 @@ class Contract:
                  props=(), for_classes=None, effects="deterministic", kwargs=None,
                  labels=None, exc_ensures=(), pure=False, havoc_all=False, abstract=False,
                  replay=None, note=None, ghost_entry=(), opaque_result=False, axiom_sets=(),
-                 preserves=(), assumed_ensures=(), lenient_types=False, receiver_keeps=None, havoc_only_if=None, quiet_modifies=()):
+                 preserves=(), assumed_ensures=(), lenient_types=False, receiver_keeps=None, havoc_only_if=None, quiet_modifies=(), generic_receiver=False):
         self.qual = qual
         self.params = {k: S.parse_type(v) for k, v in (params or {}).items()}
         self.returns = S.parse_type(returns) if returns is not None else S.NONE
@@ -48,6 +48,9 @@ class Contract:
         # it (checked on the function itself by the nohavoc.* obligations; used at call sites to keep the heap)
         self.havoc_only_if = havoc_only_if
         self.quiet_modifies = list(quiet_modifies)     # what may still change when havoc_only_if is false
+        # verified once for a receiver of ANY subclass of the class (calls on self are dispatched closed-world, so an
+        # overriding subclass gets its own case); used for the operators of Quantity, inherited unchanged by 41 classes
+        self.generic_receiver = generic_receiver
         self.assumed_ensures = list(assumed_ensures)   # assumed at call sites, NOT verified (listed as assumptions)
 
 
